@@ -649,9 +649,10 @@ func (r *PipelineRunner) resolveScheduleAction(pipeline string, ignoreStartDelay
 }
 
 func (r *PipelineRunner) resolveDequeueJobAction(job *PipelineJob) scheduleAction {
-	// Start the job if it had a start delay but the timer finished
-	ignoreStartDelay := job.StartDelay > 0 && job.startTimer == nil
-	return r.resolveScheduleAction(job.Pipeline, ignoreStartDelay)
+	// The start delay of a queued job is handled by its own start timer (see startJobsOnWaitList).
+	// The start delay of the current pipeline definition only applies to newly scheduled jobs: it could have been
+	// changed by a reload after the job was queued and must not keep a job without pending timer on the wait list.
+	return r.resolveScheduleAction(job.Pipeline, true)
 }
 
 func (r *PipelineRunner) isSchedulable(pipeline string) bool {
